@@ -163,12 +163,19 @@ namespace
       return Bm;
     };
     std::vector<LD> B = bound_matrix(ref, &Smat);
+    // The harness-side inversion M = Minv^-1 (long double, partial pivoting) has a normwise backward error of its own:
+    // |dM_ij| <= c n u_ld max|Minv| (sum_k |M_ik|) (sum_l |M_lj|).  It is the only error left where B_ij vanishes exactly
+    // (stored zeros of A make entries of (LU)^-1 and of its majorant exactly zero while M_ij comes out as 1e-24 noise).
+    std::vector<LD> rsum(n, 0.0L), csum(n, 0.0L); LD mxinv = 0;
+    for(Index i = 0; i < n; ++i) for(Index j = 0; j < n; ++j)
+    { const LD a = std::fabs(M[std::size_t(i) * n + j]); rsum[i] += a; csum[j] += a; mxinv = std::max(mxinv, std::fabs(Minv[std::size_t(i) * n + j])); }
+    const LD uld = 8.0L * LD(n) * (LD)std::numeric_limits<LD>::epsilon() * mxinv;
     c.event();
     LD worst = 0; Index wi = 0, wj = 0;
     for(Index i = 0; i < n; ++i) for(Index j = 0; j < n; ++j)
     {
       if(lev[std::size_t(i / bs) * nb + j / bs] >= LINF) continue;
-      const LD bd = 2.0L * bound_of<DT>(B[std::size_t(i) * n + j], n);
+      const LD bd = 2.0L * bound_of<DT>(B[std::size_t(i) * n + j], n) + uld * rsum[i] * csum[j];
       const LD err = std::fabs(M[std::size_t(i) * n + j] - s.a[std::size_t(i) * n + j]);
       const LD exc = bd > 0 ? err / bd : (err > 0 ? 1e300L : 0.0L);
       if(exc > worst) { worst = exc; wi = i; wj = j; }
@@ -233,7 +240,7 @@ namespace
       // classification only: block factorisation with L_ik = U_kk^-1 * W_ik instead of W_ik * U_kk^-1
       Alt alt;
       if(s.bs > 1) { alt.kind = "left-multiplied-L"; alt.make = [mkref_v](const Sys& t) -> RefFunc { IluRef r = mkref_v(t, true); r.complete = false; return r; }; }
-      if(s.n <= 16 && !s.unit_filter && c.rng.coin(0.6))
+      if(s.n <= 16 && s.fkind == 0 && c.rng.coin(0.6))
       {
         IluRef r0 = mkref(s); r0.complete = false;
         IluRef ra; if(s.bs > 1) { ra = mkref_v(s, true); ra.complete = false; }
